@@ -7,5 +7,7 @@ CONSTANTS MaxDepth = 3
   SkipEmpty = TRUE
   SplitCachesExport = FALSE
   SrcFRepass = TRUE
+  MFRunCopies = TRUE
+  AlterApplied = FALSE
 INVARIANT SeenIsExpected
 CHECK_DEADLOCK FALSE
